@@ -387,9 +387,15 @@ Qed.
 Definition no_lt_slash (content : list Z) : Prop :=
   forall k, peekz content k = Some 60 -> peekz content (k + 1) <> Some 47.
 
+(* no "<!--" inside the content (what opens the double-escape section of a script) *)
+Definition no_comment_open (content : list Z) : Prop :=
+  forall k, ~ (peekz content k = Some 60 /\ peekz content (k + 1) = Some 33 /\
+               peekz content (k + 2) = Some 45 /\ peekz content (k + 3) = Some 45).
+
 Lemma lexes_rawtext d l pre content ename erest h :
   at_input d l pre (content ++ 60 :: 47 :: ename ++ erest) -> intag l = false -> rawtag l = h ->
-  is_raw_hash h = true -> is_xml_hash h = false -> h <> html_hash_Plaintext -> h <> html_hash_Script ->
+  is_raw_hash h = true -> is_xml_hash h = false -> h <> html_hash_Plaintext ->
+  (h <> html_hash_Script \/ no_comment_open content) ->
   content <> [] -> no_lt_slash content ->
   Forall (fun c => is_letter c = true) ename -> to_hash (map lower ename) = Ok h ->
   (exists c r, erest = c :: r /\ is_tagend c = true) ->
@@ -454,6 +460,23 @@ Proof.
     destruct (Z.eq_dec (p - len pre + 1) (len content)) as [E|E].
     - rewrite E, peekz_app_r0, peekz_cons_0 in P1. discriminate.
     - rewrite peekz_app_l in P1 by lia. exact (Hnls _ P0 P1). }
+  (* (3) no "<!--" up to and including m *)
+  assert (Hpr : plain_raw h (d ++ [0]) (len pre) (m + 1)).
+  { destruct Hns as [Hns|Hnc]; [left; exact Hns|right]. intros p Hpr (C0 & C1 & C2 & C3). unfold m in Hpr.
+    assert (Hlen3 : 1 <= len erest) by (rewrite Ee, len_cons; pose proof (len_nonneg re); lia).
+    set (k := p - len pre) in *.
+    replace p with (len pre + k) in C0 by (unfold k; lia). rewrite Hpk in C0 by (unfold k; lia).
+    replace (p + 1) with (len pre + (k + 1)) in C1 by (unfold k; lia). rewrite Hpk in C1 by (unfold k; lia).
+    assert (S60 : peekz s (len content) = Some 60) by (unfold s; rewrite peekz_app_r0; apply peekz_cons_0).
+    destruct (Z.eq_dec k (len content)) as [Ek|Ek].
+    { rewrite Ek in C1. unfold s in C1. rewrite peekz_app_rk in C1 by lia. rewrite peekz_1 in C1. discriminate. }
+    destruct (Z.eq_dec (k + 1) (len content)) as [E1|E1]; [rewrite E1, S60 in C1; discriminate|].
+    replace (p + 2) with (len pre + (k + 2)) in C2 by (unfold k; lia). rewrite Hpk in C2 by (unfold k; lia).
+    destruct (Z.eq_dec (k + 2) (len content)) as [E2|E2]; [rewrite E2, S60 in C2; discriminate|].
+    replace (p + 3) with (len pre + (k + 3)) in C3 by (unfold k; lia). rewrite Hpk in C3 by (unfold k; lia).
+    destruct (Z.eq_dec (k + 3) (len content)) as [E3|E3]; [rewrite E3, S60 in C3; discriminate|].
+    apply (Hnc k). unfold s in C0, C1, C2, C3.
+    rewrite peekz_app_l in C0, C1, C2, C3 by (unfold k in *; lia). tauto. }
   (* the call *)
   destruct (html_total_step_proof no_tmpl d l cfg_ok_no_tmpl Hi) as (ty & tk & l' & Hn & Hi').
   destruct (html_rawtext_proof no_tmpl d l ty tk l' cfg_ok_no_tmpl Hi Hit ltac:(rewrite Hraw; exact Hh0) Hn) as (e & He & Htok & Hend & Hmin).
@@ -462,14 +485,14 @@ Proof.
   assert (Hem : e = m).
   { destruct (Z.lt_trichotomy e m) as [Hlt|[?|Hgt]]; [|assumption|].
     - exfalso. destruct Hend as [->|[_ Hend]]; [unfold m in Hlt; lia|]. apply (Hnone e); [lia|exact Hend].
-    - exfalso. apply (Hmin eq_refl Hns Hnp m); [unfold m in *; lia|exact Hm]. }
+    - exfalso. apply (Hmin eq_refl Hnp m); [unfold m in *; lia|exact Hpr|exact Hm]. }
   subst e. destruct (Htok ltac:(unfold m; lia)) as (-> & -> & Htx & Hr' & Hit' & Hpos').
   exists l'. split; [|tauto].
   (* the buffer is unchanged *)
   assert (Hbuf : lbuf (lz l') = lbuf (lz l)).
   { pose proof (safe_eq _ _ _ (next_spec no_tmpl l cfg_ok_no_tmpl Hl) Hn) as Hs. cbn [step_post] in Hs.
     destruct Hs as (_ & _ & (w & Hb & W1 & W2 & W3 & Wr) & _). unfold low_rule in Wr. cbn in Wr.
-    rewrite Hb. destruct w as [wo wn]. cbn [so sn] in *. subst wn. apply lower_view_empty. rewrite Hp in W1. lia. }
+    rewrite Hb. destruct w as [wo wn]. cbn [so sn] in *. subst wn. apply lower_view_empty. unfold lx_len in Hlen. rewrite Hp in W1. lia. }
   eapply (lexes_one d l pre content); [exact Hat|exact Hn|cbn [so sn]; unfold m; lia|].
   cbn [observe]. rewrite Htx, Hbuf. cbn [opt_bytes]. change (TextT =? AttributeT) with false.
   replace (m - len pre) with (len content) by (unfold m; lia).
@@ -492,7 +515,9 @@ Inductive item :=
 | ITag (name : list Z) (attrs : list attr) (ws : list Z) (void : bool)
 | IEnd (name ws : list Z)
 | IRaw (name : list Z) (attrs : list attr) (ws content ename ews : list Z)    (* raw-text element with its content and end tag *)
-| IForeign (h : Z) (name inner ename ews : list Z).                          (* svg / math / xml: "<" name inner "</" ename ews ">" *)
+| IForeign (h : Z) (name inner ename ews : list Z)                           (* svg / math / xml: "<" name inner "</" ename ews ">" *)
+| IBogus (c1 : Z) (body : list Z)                                            (* bogus comment: "<?" / "<!" / "</" body ">" *)
+| IPlain (name : list Z) (attrs : list attr) (ws content : list Z).          (* <plaintext ...> and everything after it *)
 
 Definition item_bytes (i : item) : list Z :=
   match i with
@@ -505,6 +530,8 @@ Definition item_bytes (i : item) : list Z :=
   | IRaw name attrs ws content ename ews =>
       (60 :: name ++ tag_rest attrs ws false) ++ content ++ 60 :: 47 :: ename ++ ews ++ [62]
   | IForeign h name inner ename ews => 60 :: name ++ inner ++ 60 :: 47 :: ename ++ ews ++ [62]
+  | IBogus c1 body => 60 :: c1 :: body ++ [62]
+  | IPlain name attrs ws content => (60 :: name ++ tag_rest attrs ws false) ++ content
   end.
 
 (* exactly one token per construct (a tag: one per part), lower-cased names, verbatim values *)
@@ -523,9 +550,12 @@ Definition item_obs (i : item) : list obs :=
       [mkObs TextT content content []; mkObs EndTagT (60 :: 47 :: map lower ename ++ ews ++ [62]) (map lower ename) []]
   | IForeign h name inner ename ews =>
       [mkObs (foreign_ty h) (60 :: map lower name ++ inner ++ 60 :: 47 :: ename ++ ews ++ [62]) (map lower name) []]
+  | IBogus c1 body => [mkObs CommentT (60 :: c1 :: body ++ [62]) body []]
+  | IPlain name attrs ws content => tag_obs name attrs false ++ [mkObs TextT content content []]
   end.
 
 Definition is_text (i : item) : bool := match i with IText _ => true | _ => false end.
+Definition is_plain (i : item) : bool := match i with IPlain _ _ _ _ => true | _ => false end.
 
 Definition wf_item (i : item) : Prop :=
   match i with
@@ -545,7 +575,7 @@ Definition wf_item (i : item) : Prop :=
       (exists c nm, name = c :: nm /\ is_letter c = true) /\ Forall namechar name /\
       (exists h, to_hash (map lower name) = Ok h /\ to_hash (map lower ename) = Ok h /\ is_raw_hash h = true /\
                  is_xml_hash h = false /\ h <> html_hash_Plaintext /\
-                 (h <> html_hash_Script \/ Forall (fun c => c <> 60) content)) /\   (* style title textarea xmp iframe; script without '<' *)
+                 (h <> html_hash_Script \/ no_comment_open content)) /\   (* style title textarea xmp iframe; script without "<!--" *)
       all_ws ws /\ wf_attrs attrs (ws ++ closer false) /\
       content <> [] /\ no_lt_slash content /\
       ename <> [] /\ Forall (fun c => is_letter c = true) ename /\ Forall (fun c => is_ws c = true) ews
@@ -554,13 +584,19 @@ Definition wf_item (i : item) : Prop :=
       to_hash (map lower name) = Ok h /\ to_hash (map lower ename) = Ok h /\ is_xml_hash h = true /\   (* svg math xml *)
       (exists c r, inner = c :: r /\ (is_ws c = true \/ c = 62)) /\ xml_inner inner /\
       Forall (fun c => is_letter c = true) ename /\ Forall (fun c => is_ws c = true) ews
+  | IBogus c1 body => bogus_open c1 body /\ Forall (fun c => c <> 62) body
+  | IPlain name attrs ws content =>
+      (exists c nm, name = c :: nm /\ is_letter c = true) /\ Forall namechar name /\
+      to_hash (map lower name) = Ok html_hash_Plaintext /\
+      all_ws ws /\ wf_attrs attrs (ws ++ closer false) /\ content <> []
   end.
 
-(* a document: well-formed items, no two texts in a row *)
+(* a document: well-formed items, no two texts in a row, plaintext only as the last item *)
 Fixpoint wf_doc (items : list item) : Prop :=
   match items with
   | [] => True
-  | i :: rest => wf_item i /\ (is_text i = true -> match rest with j :: _ => is_text j = false | [] => True end) /\ wf_doc rest
+  | i :: rest => wf_item i /\ (is_text i = true -> match rest with j :: _ => is_text j = false | [] => True end) /\
+                 (is_plain i = true -> rest = []) /\ wf_doc rest
   end.
 
 Definition doc_bytes (items : list item) : list Z := concat (map item_bytes items).
@@ -657,7 +693,7 @@ Qed.
 
 Lemma nontext_tag_start i rest : wf_item i -> is_text i = false -> tag_start (item_bytes i ++ rest).
 Proof.
-  intros Hwf Ht. destruct i as [t|b|b|x0 x1 x2 x3 x4 x5 x6 after|name attrs ws void|name ws|name attrs ws content ename ews|h name inner ename ews]; cbn [is_text] in Ht; try discriminate;
+  intros Hwf Ht. destruct i as [t|b|b|x0 x1 x2 x3 x4 x5 x6 after|name attrs ws void|name ws|name attrs ws content ename ews|h name inner ename ews|c1 body|name attrs ws content]; cbn [is_text] in Ht; try discriminate;
     cbn [item_bytes app wf_item] in *.
   - eexists _, _. split; [reflexivity|tauto].
   - eexists _, _. split; [reflexivity|tauto].
@@ -666,6 +702,10 @@ Proof.
   - destruct Hwf as ((c & nm & -> & Hl) & _). cbn [app]. eexists _, _. split; [reflexivity|].
     right; right; right. split; [reflexivity|]. eexists _, _. split; [reflexivity|]. intros ->. discriminate.
   - destruct Hwf as ((c & nm & -> & Hl) & _). cbn [app]. eexists _, _. split; [reflexivity|tauto].
+  - destruct Hwf as ((c & nm & -> & Hl) & _). cbn [app]. eexists _, _. split; [reflexivity|tauto].
+  - destruct Hwf as [Hopen Hb]. eexists _, _. split; [reflexivity|].
+    destruct Hopen as [->|[(-> & _)|(-> & c2 & r & -> & Hnl)]]; [tauto|tauto|].
+    right; right; right. split; [reflexivity|]. cbn [app]. eexists _, _. split; [reflexivity|]. inversion Hb; assumption.
   - destruct Hwf as ((c & nm & -> & Hl) & _). cbn [app]. eexists _, _. split; [reflexivity|tauto].
 Qed.
 
@@ -696,21 +736,22 @@ Qed.
 
 Lemma item_obs_noerr i : Forall (fun o => o_ty o <> ErrorT) (item_obs i).
 Proof.
-  destruct i as [t|b|b|x0 x1 x2 x3 x4 x5 x6 after|name attrs ws void|name ws|name attrs ws content ename ews|h name inner ename ews];
+  destruct i as [t|b|b|x0 x1 x2 x3 x4 x5 x6 after|name attrs ws void|name ws|name attrs ws content ename ews|h name inner ename ews|c1 body|name attrs ws content];
     cbn [item_obs]; unfold tag_obs; repeat (constructor || apply Forall_app; try split); cbn [o_ty]; try discriminate.
   - rewrite Forall_map. apply Forall_forall. intros [? ?|? ? ? ? ?] _; discriminate.
   - destruct void; discriminate.
   - rewrite Forall_map. apply Forall_forall. intros [? ?|? ? ? ? ?] _; discriminate.
   - unfold foreign_ty. destruct (h =? html_hash_Svg); [discriminate|]. destruct (h =? html_hash_Math); discriminate.
+  - rewrite Forall_map. apply Forall_forall. intros [? ?|? ? ? ? ?] _; discriminate.
 Qed.
 
 Lemma lexes_item i d l pre rest : at_input d l pre (item_bytes i ++ rest) -> intag l = false -> rawtag l = 0 -> lerr l = false ->
-  wf_item i -> (is_text i = true -> rest = [] \/ tag_start rest) ->
+  wf_item i -> (is_text i = true -> rest = [] \/ tag_start rest) -> (is_plain i = true -> rest = []) ->
   exists l', lexes d l pre (item_bytes i) rest (item_obs i) l' /\ intag l' = false /\ rawtag l' = 0.
 Proof.
-  intros Hat Hit Hraw Hlerr Hwf Hnext. destruct (at_input_buflen _ _ _ _ Hat) as [Hbl Hpre0].
+  intros Hat Hit Hraw Hlerr Hwf Hnext Hlast. destruct (at_input_buflen _ _ _ _ Hat) as [Hbl Hpre0].
   pose proof (len_nonneg rest) as Hrest0.
-  destruct i as [t|b|b|x0 x1 x2 x3 x4 x5 x6 after|name attrs ws void|name ws|name attrs ws content ename ews|h name inner ename ews]; cbn [item_bytes item_obs wf_item is_text] in *.
+  destruct i as [t|b|b|x0 x1 x2 x3 x4 x5 x6 after|name attrs ws void|name ws|name attrs ws content ename ews|h name inner ename ews|c1 body|name attrs ws content]; cbn [item_bytes item_obs wf_item is_text is_plain] in *.
   - (* text *)
     destruct Hwf as [Hne Ht].
     destruct (next_text d l pre t rest Hat Hit Hraw Hne Ht (Hnext eq_refl)) as (l' & Hn & Htx & Hb & Hi' & Hr' & _).
@@ -780,15 +821,7 @@ Proof.
       apply is_tagend_ws. inversion Hews; assumption. }
     assert (Hraw2 : exists l2, lexes d l1 (pre ++ 60 :: name ++ tag_rest attrs ws false) content (60 :: 47 :: ename ++ ews ++ 62 :: rest)
                                  [mkObs TextT content content []] l2 /\ intag l2 = false /\ rawtag l2 = 0).
-    { destruct Hns as [Hns|Hnolt].
-      - exact (lexes_rawtext d l1 _ content ename (ews ++ 62 :: rest) h Hat2 Hi1 Hr1 Hrh Hxh Hnp Hns Hcne Hnls Helet Heh Herest).
-      - assert (Hh0 : h <> 0) by (intros ->; vm_compute in Hrh; discriminate).
-        destruct (next_rawtext_nolt d l1 _ content ename (ews ++ 62 :: rest) h Hat2 Hi1 Hr1 Hh0 Hnp Hcne Hnolt Helet Heh Herest)
-          as (l2 & Hnx2 & Htx2 & Hb2 & Hi2 & Hr2 & _).
-        exists l2. split; [|tauto]. pose proof (len_nonneg content).
-        eapply lexes_one; [exact Hat2|exact Hnx2|cbn [so sn]; lia|].
-        cbn [observe]. rewrite Htx2, Hb2. cbn [opt_bytes]. change (TextT =? AttributeT) with false.
-        rewrite (at_input_view0 d l1 _ _ (len content) Hat2) by (rewrite ?len_app; pose proof (len_nonneg (60 :: 47 :: ename ++ ews ++ 62 :: rest)); lia). rewrite slice_first. reflexivity. }
+    { exact (lexes_rawtext d l1 _ content ename (ews ++ 62 :: rest) h Hat2 Hi1 Hr1 Hrh Hxh Hnp Hns Hcne Hnls Helet Heh Herest). }
     destruct Hraw2 as (l2 & Hl2 & Hi2 & Hr2).
     assert (Hat3 : at_input d l2 ((pre ++ 60 :: name ++ tag_rest attrs ws false) ++ content) (60 :: 47 :: ename ++ ews ++ 62 :: rest)).
     { destruct Hl2 as (tr & _ & _ & _ & A). exact A. }
@@ -848,6 +881,47 @@ Proof.
       rewrite (at_input_view d l pre _ 1 (len name) Hat) by (rewrite ?len_app; lia). f_equal.
       replace ((60 :: name ++ tl) ++ rest) with ([60] ++ name ++ tl ++ rest) by (cbn [app]; rewrite <- app_assoc; reflexivity).
       exact (slice_mid [60] name (tl ++ rest)).
+  - (* bogus comment *)
+    destruct Hwf as [Hopen Hb].
+    assert (Hat' : at_input d l pre (60 :: c1 :: body ++ 62 :: rest))
+      by (cbn [app] in Hat; rewrite <- app_assoc in Hat; exact Hat).
+    destruct (next_bogus d l pre c1 body rest Hat' Hit Hraw Hopen Hb) as (l' & Hn & Htx & Hbf & Hi' & Hr' & _).
+    exists l'. split; [|tauto]. pose proof (len_nonneg body).
+    assert (Hl : len (60 :: c1 :: body ++ [62]) = 3 + len body) by (rewrite !len_cons, len_app; change (len [62]) with 1; lia).
+    eapply lexes_one; [exact Hat|exact Hn|cbn [so sn]; lia|].
+    cbn [observe]. rewrite Htx, Hbf. cbn [opt_bytes]. change (CommentT =? AttributeT) with false. f_equal.
+    + rewrite (at_input_view0 d l pre _ (3 + len body) Hat) by (rewrite ?len_app; lia). rewrite <- Hl. apply slice_first.
+    + rewrite (at_input_view d l pre _ 2 (len body) Hat') by (rewrite ?len_cons, ?len_app, ?len_cons; lia).
+      apply (slice_mid [60; c1] body (62 :: rest)).
+  - (* plaintext: the tag, then everything up to the end of input as one Text *)
+    destruct Hwf as (Hn1 & Hn2 & Hh & Hws & Hattrs & Hcne). rewrite (Hlast eq_refl) in *. clear Hlast Hnext.
+    assert (Hat1 : at_input d l pre ((60 :: name ++ tag_rest attrs ws false) ++ content ++ [])).
+    { rewrite app_nil_r in *. exact Hat. }
+    destruct (lexes_tag d l pre name attrs ws false (content ++ []) html_hash_Plaintext Hat1 Hit Hraw Hn1 Hn2 Hh eq_refl Hws Hattrs) as (l1 & Hl1 & Hi1 & Hr1).
+    change (if is_raw_hash html_hash_Plaintext then html_hash_Plaintext else 0) with html_hash_Plaintext in Hr1.
+    set (pre1 := pre ++ 60 :: name ++ tag_rest attrs ws false) in *.
+    assert (Hat2 : at_input d l1 pre1 (content ++ [])) by (destruct Hl1 as (tr & _ & _ & _ & A); exact A).
+    assert (Hraw2 : exists l2, lexes d l1 pre1 content [] [mkObs TextT content content []] l2 /\ intag l2 = false /\ rawtag l2 = 0).
+    { pose proof Hat2 as (Hiv & Hcl & Hd & Hp). pose proof Hiv as (Hlw & Hlen & _).
+      pose proof (len_nonneg content). pose proof (len_nonneg pre1).
+      assert (Hcpos : 0 < len content) by (destruct content; [congruence|rewrite len_cons; pose proof (len_nonneg content); lia]).
+      assert (Hlend : len d = len pre1 + len content) by (rewrite Hd, app_nil_r, len_app; reflexivity).
+      destruct (html_total_step_proof no_tmpl d l1 cfg_ok_no_tmpl Hiv) as (ty & tk & l2 & Hnx & Hiv2).
+      destruct (html_rawtext_proof no_tmpl d l1 ty tk l2 cfg_ok_no_tmpl Hiv Hi1 ltac:(rewrite Hr1; discriminate) Hnx) as (e & He & Htok & Hend & _).
+      assert (Ee : e = len d) by (destruct Hend as [?|[Hc _]]; [assumption|rewrite Hr1 in Hc; congruence]). subst e.
+      destruct (Htok ltac:(lia)) as (-> & -> & Htx & Hr2 & Hit2 & Hpos2).
+      exists l2. split; [|tauto].
+      assert (Hbuf : lbuf (lz l2) = lbuf (lz l1)).
+      { pose proof (safe_eq _ _ _ (next_spec no_tmpl l1 cfg_ok_no_tmpl Hlw) Hnx) as Hs. cbn [step_post] in Hs.
+        destruct Hs as (_ & _ & (w & Hb & W1 & W2 & W3 & Wr) & _). unfold low_rule in Wr. cbn in Wr.
+        rewrite Hb. destruct w as [wo wn]. cbn [so sn] in *. subst wn. apply lower_view_empty. unfold lx_len in Hlen. rewrite Hp in W1. lia. }
+      eapply (lexes_one d l1 pre1 content); [exact Hat2|exact Hnx|cbn [so sn]; lia|].
+      cbn [observe]. rewrite Htx, Hbuf. cbn [opt_bytes]. change (TextT =? AttributeT) with false.
+      rewrite Hp. replace (len d - len pre1) with (len content) by lia.
+      rewrite (at_input_view0 d l1 pre1 _ (len content) Hat2) by (rewrite ?len_app; change (len (@nil Z)) with 0; lia).
+      rewrite slice_first. reflexivity. }
+    destruct Hraw2 as (l2 & Hl2 & Hi2 & Hr2).
+    exists l2. split; [|tauto]. eapply lexes_app; [exact Hl1|exact Hl2].
 Qed.
 
 (* ---- documents ------------------------------------------------------------------------------------------------------------- *)
@@ -856,12 +930,13 @@ Lemma lexes_doc items : forall d l pre, at_input d l pre (doc_bytes items) -> in
 Proof.
   induction items as [|i items IH]; intros d l pre Hat Hit Hraw Hlerr Hwf.
   - exists l. split; [apply lexes_nil; exact Hat|tauto].
-  - cbn [wf_doc] in Hwf. destruct Hwf as (Hi & Hnt & Hrest).
+  - cbn [wf_doc] in Hwf. destruct Hwf as (Hi & Hnt & Hlast & Hrest).
     unfold doc_bytes, doc_obs in *. cbn [map concat] in *. fold (doc_bytes items) in *. fold (doc_obs items) in *.
     assert (Hfollow : is_text i = true -> doc_bytes items = [] \/ tag_start (doc_bytes items)).
     { intros Ht. specialize (Hnt Ht). destruct items as [|j items']; [left; reflexivity|right].
       cbn [wf_doc] in Hrest. destruct Hrest as (Hj & _). unfold doc_bytes. cbn [map concat]. apply nontext_tag_start; assumption. }
-    destruct (lexes_item i d l pre (doc_bytes items) Hat Hit Hraw Hlerr Hi Hfollow) as (l1 & Hl1 & Hi1 & Hr1).
+    assert (Hlast' : is_plain i = true -> doc_bytes items = []) by (intros Hpl; rewrite (Hlast Hpl); reflexivity).
+    destruct (lexes_item i d l pre (doc_bytes items) Hat Hit Hraw Hlerr Hi Hfollow Hlast') as (l1 & Hl1 & Hi1 & Hr1).
     assert (Hat1 : at_input d l1 (pre ++ item_bytes i) (doc_bytes items)) by (destruct Hl1 as (tr & _ & _ & _ & A); exact A).
     assert (Hlerr1 : lerr l1 = false).
     { rewrite (lexes_lerr _ _ _ _ _ _ _ (proj1 (proj1 Hat)) Hl1 (item_obs_noerr i)). exact Hlerr. }
@@ -919,4 +994,44 @@ Proof.
   - intros k Hk Hk1. destruct (Z.eq_dec k 1) as [->|Hne]; [vm_compute in Hk1; discriminate|].
     assert (0 <= k < 5) by (apply peekz_some in Hk; exact Hk).
     assert (k = 0 \/ k = 2 \/ k = 3 \/ k = 4) as [-> | [-> | [-> | -> ]]] by lia; vm_compute in Hk; discriminate.
+Qed.
+
+(* non-vacuity of the added constructs: <?xml><!-x></1><script>a<b</script><plaintext></p> *)
+Example html_wellformed_nonvacuous2 :
+  let doc := [ IBogus 63 [120; 109; 108];
+               IBogus 33 [45; 120];
+               IBogus 47 [49];
+               IRaw [115; 99; 114; 105; 112; 116] [] [] [97; 60; 98] [115; 99; 114; 105; 112; 116] [];
+               IPlain [112; 108; 97; 105; 110; 116; 101; 120; 116] [] [] [60; 47; 112; 62] ] in
+  wf_doc doc /\
+  doc_bytes doc = [60;63;120;109;108;62; 60;33;45;120;62; 60;47;49;62;
+                   60;115;99;114;105;112;116;62;97;60;98;60;47;115;99;114;105;112;116;62;
+                   60;112;108;97;105;110;116;101;120;116;62;60;47;112;62] /\
+  length (doc_obs doc) = 10%nat.
+Proof.
+  split; [|split; reflexivity]. cbn [wf_doc is_text is_plain].
+  split; [|split; [discriminate|split; [discriminate|]]].
+  { split; [left; reflexivity|repeat constructor; discriminate]. }
+  split; [|split; [discriminate|split; [discriminate|]]].
+  { split; [|repeat constructor; discriminate]. right; left. split; [reflexivity|]. split; [reflexivity|]. split; [reflexivity|].
+    right. exists 45, [120]. split; [reflexivity|]. lia. }
+  split; [|split; [discriminate|split; [discriminate|]]].
+  { split; [|repeat constructor; discriminate]. right; right. split; [reflexivity|]. exists 49, []. split; reflexivity. }
+  split; [|split; [discriminate|split; [discriminate|]]].
+  { cbn [wf_item]. split; [eexists _, _; split; reflexivity|].
+    split; [repeat constructor; vm_compute; repeat split; discriminate|].
+    split.
+    { exists html_hash_Script. split; [vm_compute; reflexivity|]. split; [vm_compute; reflexivity|].
+      split; [vm_compute; reflexivity|]. split; [vm_compute; reflexivity|]. split; [vm_compute; discriminate|].
+      right. intros k (C0 & C1 & _). assert (0 <= k < 3) by (apply peekz_some in C0; exact C0).
+      assert (k = 0 \/ k = 1 \/ k = 2) as [-> | [-> | -> ]] by lia; vm_compute in C0, C1; discriminate. }
+    split; [constructor|]. split; [cbn [wf_attrs]; exact I|]. split; [discriminate|].
+    split.
+    { intros k Hk Hk1. assert (0 <= k < 3) by (apply peekz_some in Hk; exact Hk).
+      assert (k = 0 \/ k = 1 \/ k = 2) as [-> | [-> | -> ]] by lia; vm_compute in Hk, Hk1; discriminate. }
+    split; [discriminate|]. split; [repeat constructor|constructor]. }
+  split; [|split; [discriminate|split; [reflexivity|exact I]]].
+  cbn [wf_item]. split; [eexists _, _; split; reflexivity|].
+  split; [repeat constructor; vm_compute; repeat split; discriminate|].
+  split; [vm_compute; reflexivity|]. split; [constructor|]. split; [cbn [wf_attrs]; exact I|discriminate].
 Qed.
